@@ -11,7 +11,8 @@
                             segment that is empty or contains ':')
      pct_wf t               every '%' of t starts "%" HEXDIG HEXDIG *)
 From Coq Require Import String List NArith Bool.
-From UP Require Import Base.Chars Spec.NormalWf Spec.Split Spec.Resolve Spec.Normal Proofs.NormalSpec.
+From UP Require Import Base.Chars Spec.NormalWf Spec.Split Spec.Resolve Spec.Normal Proofs.NormalizeText Proofs.NormalSpec.
+From UP Require Spec.Unparse Model.Parse.
 Import ListNotations.
 Local Open Scope N_scope.
 
@@ -50,6 +51,40 @@ Theorem C08spec_path_normal_idem : forall hs ha p, forallb pct_wf (split_on 47 p
 Proof. exact path_normal_idem. Qed.
 Print Assumptions C08spec_path_normal_idem.
 
+(* the authority, given in its parts user info / host (lit: bracketed literal) / port.  Hypotheses: no part
+   contains the delimiter that ends it (the conditions of NormalizeText.auth_wfb, which every parsed object
+   meets: parsed_auth_wfb), percent-encodings of user info and registered name well formed *)
+Theorem C08spec_auth_normal_idem : forall ui h (lit : bool) po,
+  opt_avoidb [64] ui = true -> avoidb [64] h = true -> opt_avoidb [64] po = true ->
+  (if lit then avoidb [93] h = true else avoidb [58] h = true /\ avoidb [91] h = true) ->
+  opt_pct_wf ui = true -> (lit = false -> pct_wf h = true) ->
+  let a := Unparse.opt_post ui [64] ++ (if lit then [91] ++ h ++ [93] else h) ++ Unparse.opt_pre [58] po in
+  auth_normal (auth_normal a) = auth_normal a.
+Proof. exact auth_normal_idem. Qed.
+Print Assumptions C08spec_auth_normal_idem.
+
+(* normalization writes no delimiter: a character that is neither unreserved nor '%' occurs in the result only
+   if it occurs in the text *)
+Theorem C08spec_pct_norm_no_new_delimiter : forall lc k t, is_unreserved k = false -> k <> 37 ->
+  pct_wf t = true -> ~ In k t -> ~ In k (pct_norm lc t).
+Proof. exact pct_norm_notin. Qed.
+Print Assumptions C08spec_pct_norm_no_new_delimiter.
+
+(* ---- 3. the text --------------------------------------------------------------------------------- *)
+(* _partial.  NOT proved: normal_text (normal_text s) = normal_text s for every parsed s.  Proved: it follows
+   from two facts about the five components g of the normal form -- the text written for g is read back as g
+   (what Normal.guard_path is for), and g is a fixed point of component-wise normalization with the guard.
+   No counterexample exists among all texts of up to four tokens over
+   {"/", ".", ":", "a", "?", "#", "@", "%41", "%2e", "A"} (C08spec_text_tested, parsed or not) nor among the
+   inputs of C08all_kinds (C08spec_text_kinds). *)
+Theorem C08spec_normal_text_idem_partial : forall s,
+  let f := five_of_text s in
+  let g := guard_normal f (five_normal f) in
+  five_of_text (recompose g) = g -> guard_normal g (five_normal g) = g ->
+  normal_text (normal_text s) = normal_text s.
+Proof. exact normal_text_idem_partial. Qed.
+Print Assumptions C08spec_normal_text_idem_partial.
+
 (* ---- tests, non-vacuity ---------------------------------------------------------------------- *)
 Definition c08spec_alphabet : list text := [[]; [46]; [46; 46]; [97]; [98; 58; 99]].
 Fixpoint c08spec_lists (n : nat) : list (list text) :=
@@ -78,3 +113,28 @@ Example C08spec_components :
   /\ rel_path_normal (txt "x/../b:c") = txt "./b:c" /\ rel_path_normal (txt "./b:c") = txt "./b:c"
   /\ rel_path_normal (txt "a/..//x") = txt ".//x" /\ rel_path_normal (txt ".//x") = txt ".//x".
 Proof. vm_compute. repeat split. Qed.
+
+Definition c08spec_tokens : list text := [[47]; [46]; [58]; [97]; [63]; [35]; [64]; [37; 52; 49]; [37; 50; 101]; [65]]%N.
+Fixpoint c08spec_texts (n : nat) : list text :=
+  match n with
+  | O => [[]]
+  | S k => [] :: flat_map (fun l => map (fun a => a ++ l)%list c08spec_tokens) (c08spec_texts k)
+  end.
+Definition c08spec_idem (s : text) : bool := text_eqb (normal_text (normal_text s)) (normal_text s).
+Definition c08spec_both (s : text) : bool :=
+  let f := five_of_text s in let g := guard_normal f (five_normal f) in
+  c08spec_idem s && text_eqb (recompose (five_of_text (recompose g))) (recompose g)
+  && text_eqb (recompose (guard_normal g (five_normal g))) (recompose g).
+
+Example C08spec_text_tested :
+  forallb c08spec_idem (c08spec_texts 4) = true /\ N.of_nat (length (c08spec_texts 4)) = 11111%N.
+Proof. vm_compute. split; reflexivity. Qed.
+
+Example C08spec_text_kinds :
+  forallb (fun s => match Parse.parse (txt s) with Parse.POk _ => c08spec_both (txt s) | _ => false end)
+    ["../a/./b/../c?%7e"; "./a:b/c"; "%2e%2E/x/%2e%2e/./b:c/%7e/d/.."; "a/..//"; "./b:c/.."; "./b:c/..//x";
+     "?q%3d#f"; ""; "a"; "../.."; "a/b/../"; "a/.."; "./b:c/../../x"; "a/..//b"; "a/../b:c"; "./b:c/../x";
+     "S://U@199.249.250.99:8/%41/../b"; "s://[V1.A:b]:1/./x"; "s://[::A]/x/../y"; "s:/a/..//b"; "s:a/..//b";
+     "s:a/..///b"; "s:a/..//"; "s:a/.."; "/a/..//b"; "//h/a/..//b"; "S://%41%7e@H%2e:/"; "s://@"; "s://h:";
+     "/a/./b/../%7e"; "//h"; "s:"; "/"; "//@:?#"] = true.
+Proof. vm_compute. reflexivity. Qed.
